@@ -71,6 +71,17 @@ check("C16",
       "expected_groups x every strategy/chunking x numpy|dask labels validated by TraceReduce.tla (clauses groups / order / values).",
       TB, "TLC factorisation model + trace validation of API returns (order and label->value pairing)", "DESIGN.md section 5 C16")
 
+check("C18",
+      "MC_Quantile: the transcribed index arithmetic of quantile_ (valid counts, cumulative offsets, q(n-1), floor/ceil, lerp, NaN masks) equals "
+      "numpy's linear quantile for every small two-group configuration and rational q (the unmasked variant, defect D5, is rejected); real calls "
+      "(engines auto/flox/numpy, scalar and vector q, batch dim, eager and blockwise-chunked, refusal when a group straddles blocks) are validated by TraceReduce.tla.",
+      TB + " Infinities excluded as the property states.", "TLC model of the quantile index arithmetic + trace validation of API returns", "DESIGN.md section 5 C18")
+check("C20",
+      "MC_Engines with +-inf in the alphabet (sentinel-comparison variant rejected as negative control) and MC_Laws!Exact for var/std (sum-of-squares finalize = "
+      "two-pass variance exactly); real calls validated by TraceReduce.tla: inf-mixing arrays x min/max family x all engines x strategies; narrow-int arrays "
+      "whose totals exceed the input width must return the exact sums/products; var/std on shifted residues within 1e-6 of the exact rational.",
+      TB + " No rounding-error bound is claimed.", "TLC engine/algebra models + trace validation of API returns", "DESIGN.md section 5 C20")
+
 ALL = [f"C{n:02d}" for n in range(1, 21)]
 
 def main():
